@@ -688,4 +688,50 @@ PropInto(c, e) ==
       i == IntoField(c, v, e.k)
   IN e.res = <<"a", i, e.a.f[i], GenOfMode(IntoMode(c, v, e.k))>>
 
+
+\* ======================================================================
+\* Unions (C20)
+\* ======================================================================
+\* A union configuration has one "variant" whose fields carry a type class;
+\* the value of a union is the sequence of its size_of::<Self>() bytes.
+USizeOf(t) == CASE t = "u8" -> 1 [] t = "u16" -> 2 [] t = "a3" -> 3 [] t = "u32" -> 4 [] t = "a16x4" -> 8 [] OTHER -> 1
+UAlignOf(t) == CASE t = "u8" -> 1 [] t = "u16" -> 2 [] t = "a3" -> 1 [] t = "u32" -> 4 [] t = "a16x4" -> 2 [] OTHER -> 1
+MaxOf(S) == CHOOSE x \in S : \A y \in S : y <= x
+USize(c) ==
+  LET ts == { c.variants[1].fields[i].ty : i \in FieldIdx(c, 1) }
+      sz == MaxOf({ USizeOf(t) : t \in ts })
+      al == MaxOf({ UAlignOf(t) : t \in ts })
+  IN ((sz + al - 1) \div al) * al
+
+UnionName(c, nm) ==
+  CASE c.opts.dname = "off" -> NoName
+    [] c.opts.dname = "custom" -> TypeCustom
+    [] OTHER -> nm
+
+ByteList(bytes) == "[" \o JoinWith([i \in DOMAIN bytes |-> ToString(bytes[i])], ", ") \o "]"
+RECURSIVE Lines2(_)
+Lines2(items) == IF items = <<>> THEN "" ELSE "        " \o Head(items) \o ",|" \o Lines2(Tail(items))
+
+\* Debug lists the bytes: `Name([b1, b2])` through debug_tuple, or the bare
+\* slice when the name is disabled
+RenderUnion(c, bytes, nm, alt) ==
+  LET name == UnionName(c, nm)
+      items == [i \in DOMAIN bytes |-> ToString(bytes[i])]
+  IN IF name = NoName
+     THEN IF alt THEN "[|" \o Lines(items) \o "]" ELSE ByteList(bytes)
+     ELSE IF alt THEN name \o "(|    [|" \o Lines2(items) \o "    ],|)"
+                 ELSE name \o "(" \o ByteList(bytes) \o ")"
+
+\* e: all observations on one union value (its bytes e.bytes): Debug text in
+\* both modes, the recorded hasher feed next to the feed of hashing the byte
+\* slice itself, the bytes of its clone, and == against every other value of
+\* the type (e.eqs = sequence of <<other bytes, result>>)
+PropUnion(c, e) ==
+  /\ Len(e.bytes) = USize(c)
+  /\ e.out = RenderUnion(c, e.bytes, e.nm, FALSE)
+  /\ e.pretty = RenderUnion(c, e.bytes, e.nm, TRUE)
+  /\ e.feed = e.reffeed
+  /\ e.clone = e.bytes
+  /\ \A k \in DOMAIN e.eqs : e.eqs[k][2] = (e.eqs[k][1] = e.bytes)
+
 =============================================================================
